@@ -17,7 +17,7 @@
    where the implementation only touches differences, toleranced otherwise). *)
 From Coq Require Import List Reals.
 From Coq Require Import Permutation Lra.
-From ML Require Import Ops Vec VecR MatR LinAlg ITML MMC LSML Objectives C11Proof C19Proof C19Rot C19Itml CovProof.
+From ML Require Import Ops Vec VecR MatR LinAlg ITML MMC LSML Objectives C11Proof C19Proof C19Rot C19Itml CovProof C11Src.
 Import ListNotations.
 Open Scope R_scope.
 
@@ -112,3 +112,36 @@ Proof.
   intros z Hz. apply (conj_distance d Q HD (A s) (A s') z E3 E2 Hz).
 Qed.
 Print Assumptions C19_itml_rotation.
+
+(* the same for the loop of itml.py as TRANSLATED on this run (gen/Src_itml.v, through C11Src.src_run_eq): started from
+   symmetric positive definite priors related by Q, with positive bounds and non-collapsed pairs, the source's iterates on
+   the rotated problem are the rotated iterates, with the same dual variables and the same learned distances *)
+Definition C19_itml_rotation_source_stmt : Prop :=
+  forall (d : nat) (Q : Rm), wfmR d d Q ->
+    (forall x y, wfvR d x -> wfvR d y -> vdotR (mvmulR Q x) (mvmulR Q y) = vdotR x y) ->
+  forall (g : option R) (cs : list cstrR) (A0 A0' B0 B0' : Rm) (lo hi : R) (n : nat),
+    gamma_ok g -> Forall (cstr_ok d) cs -> inv_ok d A0 B0 -> inv_ok d A0' B0' -> 0 < lo -> 0 < hi ->
+    (forall x, wfvR d x -> mvmulR A0' (mvmulR Q x) = mvmulR Q (mvmulR A0 x)) ->
+    let s := @src_run ROps g cs n (@init ROps A0 cs lo hi) in
+    let s' := @src_run ROps g (map (rotc Q) cs) n (@init ROps A0' (map (rotc Q) cs) lo hi) in
+    duals s' = duals s /\
+    (forall x, wfvR d x -> mvmulR (A s') (mvmulR Q x) = mvmulR Q (mvmulR (A s) x)) /\
+    (forall z, wfvR d z -> quadformR (A s') (mvmulR Q z) = quadformR (A s) z).
+
+Theorem C19_itml_rotation_source : C19_itml_rotation_source_stmt.
+Proof.
+  intros d Q HQ HD g cs A0 A0' B0 B0' lo hi n Hg Hcs HI HI' Hlo Hhi HC s s'.
+  assert (Hcs': Forall (cstr_ok d) (map (rotc Q) cs)).
+  { apply Forall_forall. intros c Hc. apply in_map_iff in Hc as [c0 [<- Hc0]].
+    rewrite Forall_forall in Hcs. destruct (Hcs c0 Hc0) as [W P]. split; cbn [rotc cv].
+    - unfold wfv. rewrite mvmul_length. apply HQ.
+    - unfold vsumsq in *. rewrite (HD (cv c0) (cv c0) W W). exact P. }
+  assert (Hw: Forall (fun c : cstrR => wfvR d (cv c)) cs).
+  { apply Forall_forall. intros c Hc. rewrite Forall_forall in Hcs. apply (Hcs c Hc). }
+  unfold s, s'.
+  rewrite (src_run_eq d g cs (fun x y => vdotR y (mvmulR B0 x)) Hg Hcs n _ (itml_init_ok d A0 B0 cs lo hi HI Hlo Hhi)).
+  rewrite (src_run_eq d g (map (rotc Q) cs) (fun x y => vdotR y (mvmulR B0' x)) Hg Hcs' n _
+             (itml_init_ok d A0' B0' (map (rotc Q) cs) lo hi HI' Hlo Hhi)).
+  exact (C19_itml_rotation d Q HQ HD g cs A0 A0' lo hi n Hw (iA d A0 B0 HI) (iA d A0' B0' HI') HC).
+Qed.
+Print Assumptions C19_itml_rotation_source.
